@@ -1,6 +1,11 @@
 (* Property C04: STREAMINFO block-size and frame-size bounds are valid and exact.
-   Statements only; proofs in Proofs/StreamInfoP.v. *)
-From FV Require Import Model.Base Model.Predict Model.Component Model.Encoder Proofs.StreamInfoP.
+   Statements only; proofs in Proofs/StreamInfoP.v and Proofs/FrameSizes.v.
+   C04_bounds_exact: the accounting in the encoder model.  C04_bounds_match_decoded_frames: the frame lengths the
+   INDEPENDENT decoder measures on the emitted bytes (Flac.frame_lengths: bytes consumed per frame) are exactly the
+   frames' size fields, so the min / max frame size in STREAMINFO are the smallest / largest frame actually present
+   in the byte stream. *)
+From FV Require Import Generated Model.Base Model.Rice Model.Predict Model.Component Model.Flac Model.Encoder
+  Proofs.StreamInfoP Proofs.EncodeFrameE2E Proofs.FrameSizes.
 Local Open Scope N_scope.
 
 Theorem C04_bounds_exact :
@@ -19,3 +24,23 @@ Proof.
   repeat split; try assumption; apply H8; assumption.
 Qed.
 Print Assumptions C04_bounds_exact.
+
+Theorem C04_bounds_match_decoded_frames :
+  forall (ent : N -> N -> N -> N) (qlpc : N -> N -> qparams) (md5 : list N -> list N)
+         cfg rate channels bps bs samples s bytes (total : nat) si,
+    encode_stream ent qlpc md5 cfg rate channels bps bs samples = Ok s -> stream_bytes s = Ok bytes ->
+    cfg_max_parameter cfg <= 14 -> In bps [8; 12; 16; 20; 24] -> rate < 2 ^ 32 -> 1 <= channels <= 8 ->
+    1 <= bs <= c_MAX_BLOCK_SIZE ->
+    length samples = (total * N.to_nat channels)%nat -> N.of_nat total < 2 ^ 36 ->
+    length (md5 (md5_input bps samples)) = 16%nat -> Forall (fun x => x < 256) (md5 (md5_input bps samples)) ->
+    (forall j b, nth_error (chunks (N.to_nat (bs * channels)) samples) j = Some b ->
+                 block_hyps qlpc cfg (N.of_nat j) channels bps b (length b / N.to_nat channels)) ->
+    i_rate si = rate -> i_bps si = bps ->
+    let payload := skipn 42 bytes in
+    frame_lengths (length payload) si payload = Some (map frame_size_field (s_frames s)) /\
+    (s_frames s <> [] ->
+       In (si_min_frame (s_info s)) (map frame_size_field (s_frames s)) /\
+       In (si_max_frame (s_info s)) (map frame_size_field (s_frames s)) /\
+       forall x, In x (map frame_size_field (s_frames s)) -> si_min_frame (s_info s) <= x <= si_max_frame (s_info s)).
+Proof. exact encoded_frame_lengths. Qed.
+Print Assumptions C04_bounds_match_decoded_frames.
